@@ -114,6 +114,13 @@ def proj_check(kind, case, rec):
             cnt[p] += 1
     ref = acc[used] / cnt[used][:, None]
     rec.close("project-mean=cell-means", float(np.abs(pm[used] - ref).max()), 1e-12)
+    # mean=True without averaging: every point of a cell carries the mean of that cell, in the order of the disconnected mesh
+    pmd = np.asarray(fem.project(w, region, average=False, mean=True))
+    cells_ = np.asarray(mesh.cells)
+    refd = np.repeat(cm.T, cells_.shape[1], axis=0)  # (cells * points per cell, size)
+    ok_ = rec.require("project(mean=True, average=False)-shape", pmd.size == refd.size and pmd.shape[0] == cells_.size, [pmd.shape, refd.shape])
+    if ok_:
+        rec.close("project(mean=True, average=False)=cell-mean-at-every-point-of-the-cell", float(np.abs(pmd.reshape(refd.shape) - refd).max()), 1e-12)
     # simplex regions with their DEFAULT rule: a one-point rule is replaced by a sufficient one (cell-wise constant data), a
     # rule with several but too few points is refused (documented ValueError)
     if kind in ("triangle", "tetra", "triangle6", "tetra10", "triangle-mini", "tetra-mini"):
@@ -352,17 +359,23 @@ def fm_check(kind, case, rec):
     dim = info["dim"]
     X = np.array(mesh.points)
     rng = np.random.default_rng(case["seed"])
-    fc = fem.FieldsMixed(region, n=2) if case["mixed"] else fem.FieldContainer([fem.Field(region, dim=dim)])
-    fc.fields[0].values[...] = 0.1 * rng.uniform(-1, 1, X.shape)
+    # the first field decides the number of force components per point: the mesh dimension (displacements), or any other number
+    # (a scalar field such as a temperature or a potential, a 3-component field on a plane mesh)
+    fdim = dim if case["mixed"] or case["seed"] % 3 else (1 if case["seed"] % 2 else dim + 1)
+    fc = fem.FieldsMixed(region, n=2) if case["mixed"] else fem.FieldContainer([fem.Field(region, dim=fdim)])
+    fc.fields[0].values[...] = 0.1 * rng.uniform(-1, 1, fc.fields[0].values.shape)
     n = int(sum(fc.fieldsizes))
     forces = rng.standard_normal(n)
     thr = X[:, 0].min() + case["frac"] * np.ptp(X[:, 0])
     b = fem.Boundary(fc[0], fx=lambda x: x >= thr)
-    fr = forces[: X.size].reshape(-1, dim)
+    fr = forces[: len(X) * fdim].reshape(-1, fdim)
     fv = sp.csr_matrix(forces.reshape(-1, 1)) if case["sparse"] else forces
     rec.nontrivial = len(b.points) >= 2
     got = np.asarray(fem.tools.force(fc, fv, b)).ravel()
-    rec.close("force=sum-over-boundary-points", float(np.abs(got - fr[b.points].sum(0)).max()), 1e-13)
+    rec.close("force=sum-over-boundary-points", float(np.abs(got - fr[b.points].sum(0)).max()) if got.shape == (fdim,) else float("inf"), 1e-13, {"components": fdim})
+    if fdim != dim:
+        rec.label("first-field-with-another-number-of-components-than-the-mesh-dimension")
+        return
     c = np.array(case["center"])[:dim]
     x = X + fc.fields[0].values
     r_ = x[b.points] - c
